@@ -10,6 +10,7 @@
 //! before and after each step; every minter step is also printed for the Coq model.
 use crate::chain;
 use crate::util::*;
+use crate::oe_world::*;
 use crate::w_sale::*;
 use crate::Args;
 use cosmwasm_std::coin;
@@ -64,15 +65,48 @@ pub struct CreateCase {
 pub enum Case {
     Sale(SaleCase),
     Create(CreateCase),
+    OeSale(OeSaleCase),
+    OeCreate(OeCreateCase),
+}
+
+// ---- part 2: open edition ----
+#[derive(Clone, Debug, Serialize, Deserialize, PartialEq, Eq)]
+pub enum OStep {
+    Op(OeOp),
+    AtNs { ns: u64 },
+    /// read MintPrice; `who` mints attaching quoted-1, quoted+1, every other advertised
+    /// price (public / whitelist), and finally exactly the quote
+    Probe { who: String },
+}
+
+#[derive(Clone, Debug, Serialize, Deserialize)]
+pub struct OeSaleCase {
+    pub cfg: OeCfg,
+    pub steps: Vec<OStep>,
+}
+
+#[derive(Clone, Debug, Serialize, Deserialize)]
+pub struct OeCreateCase {
+    pub variant: usize,
+    pub ibc: bool,
+    pub min_price: u128,
+    pub world_price: u128,
+    pub world_capped: bool,
+    pub sudo_min: Option<u128>,
+    /// (price, denom is IBC, has a token cap) of further create_minter messages
+    pub probes: Vec<(u128, bool, bool)>,
 }
 
 pub struct CaseResult {
     pub coq: Vec<String>,
+    /// cases of the second set (`oecase`, checked by sale_oe_check)
+    pub coq_oe: Vec<String>,
     pub steps: u64,
     pub ok_steps: u64,
     pub violations: Vec<(String, String, usize)>, // (key, what, index of the step that showed it)
     pub hist: BTreeMap<String, u64>,
     pub executed: Vec<Step>,
+    pub executed_oe: Vec<OStep>,
 }
 
 fn op_kind(op: &Op) -> &'static str {
@@ -164,7 +198,7 @@ impl Driver {
         let created_min_denom = denom_of(&w.factory_params()["min_mint_price"]);
         Driver {
             w,
-            res: CaseResult { coq: vec![], steps: 0, ok_steps: 0, violations: vec![], hist: BTreeMap::new(), executed: vec![] },
+            res: CaseResult { coq: vec![], coq_oe: vec![], steps: 0, ok_steps: 0, violations: vec![], hist: BTreeMap::new(), executed: vec![], executed_oe: vec![] },
             vname,
             created_min_denom,
             gov_min_changed: false,
@@ -520,7 +554,7 @@ pub fn run_sale(c: &SaleCase, gen: Option<(&mut Rng, usize, &[u128])>) -> CaseRe
     let mut w = match SaleWorld::new(cfg_of(c)) {
         Ok(w) => w,
         Err(_) => {
-            let mut r = CaseResult { coq: vec![], steps: 0, ok_steps: 0, violations: vec![], hist: BTreeMap::new(), executed: vec![] };
+            let mut r = CaseResult { coq: vec![], coq_oe: vec![], steps: 0, ok_steps: 0, violations: vec![], hist: BTreeMap::new(), executed: vec![], executed_oe: vec![] };
             *r.hist.entry(format!("{}:create:err", VARIANTS[c.variant].name)).or_insert(0) += 1;
             return r;
         }
@@ -699,7 +733,7 @@ fn fp_coq_of(c: &CreateCase) -> String {
 }
 
 pub fn run_create(c: &CreateCase) -> CaseResult {
-    let mut r = CaseResult { coq: vec![], steps: 0, ok_steps: 0, violations: vec![], hist: BTreeMap::new(), executed: vec![] };
+    let mut r = CaseResult { coq: vec![], coq_oe: vec![], steps: 0, ok_steps: 0, violations: vec![], hist: BTreeMap::new(), executed: vec![], executed_oe: vec![] };
     let vname = VARIANTS[c.variant].name;
     let mut cfg = SaleCfg::basic(c.variant);
     cfg.fp.min_price = c.min_price;
@@ -773,6 +807,8 @@ pub fn run_case(c: &Case, gen: Option<(&mut Rng, usize, &[u128])>) -> CaseResult
     match c {
         Case::Sale(s) => run_sale(s, gen),
         Case::Create(k) => run_create(k),
+        Case::OeSale(s) => run_oe_sale(s, gen),
+        Case::OeCreate(k) => run_oe_create(k),
     }
 }
 
@@ -994,12 +1030,627 @@ fn shrink(c: &SaleCase, key: &str, what: &str, upto: usize) -> SaleCase {
     cur
 }
 
+// =====================================================================================
+// Part 2: the three open-edition minters (no discount exists there)
+// =====================================================================================
+fn oe_query(w: &OeWorld, addr: &str, q: Value) -> Option<Value> {
+    w.app.wrap().query_wasm_smart::<Value>(addr.to_string(), &q).ok()
+}
+
+pub struct OeDriver {
+    pub w: OeWorld,
+    pub res: CaseResult,
+    vname: &'static str,
+    created_min_denom: String,
+    gov_min_changed: bool,
+    started_price: Option<u128>,
+    pub mints_ok: BTreeMap<String, u32>,
+}
+
+impl OeDriver {
+    pub fn new(w: OeWorld) -> OeDriver {
+        let vname = w.v.name;
+        let created_min_denom = denom_of(&w.factory_params()["min_mint_price"]);
+        OeDriver {
+            w,
+            res: CaseResult { coq: vec![], coq_oe: vec![], steps: 0, ok_steps: 0, violations: vec![], hist: BTreeMap::new(), executed: vec![], executed_oe: vec![] },
+            vname,
+            created_min_denom,
+            gov_min_changed: false,
+            started_price: None,
+            mints_ok: BTreeMap::new(),
+        }
+    }
+    pub fn now(&self) -> u64 {
+        chain::now(&self.w.app)
+    }
+    pub fn start(&self) -> u64 {
+        self.w.minter_config()["start_time"].as_str().unwrap().parse().unwrap()
+    }
+    pub fn public_price(&self) -> u128 {
+        amount_of(&self.w.minter_config()["mint_price"])
+    }
+    pub fn min_price(&self) -> u128 {
+        amount_of(&self.w.factory_params()["min_mint_price"])
+    }
+    fn mint_price_q(&self) -> Option<Value> {
+        oe_query(&self.w, self.w.minter.as_str(), json!({"mint_price": {}}))
+    }
+    fn wl_config(&self, cfg: &Value) -> Option<Value> {
+        cfg["whitelist"].as_str().and_then(|a| oe_query(&self.w, a, json!({"config": {}})))
+    }
+    fn wl_active_now(&self, cfg: &Value) -> bool {
+        self.wl_config(cfg).and_then(|v| v["is_active"].as_bool()).unwrap_or(false)
+    }
+    fn violate(&mut self, key: &str, what: String) {
+        let idx = self.res.executed.len().saturating_sub(1);
+        self.res.violations.push((key.to_string(), format!("{}: {}", self.vname, what), idx));
+    }
+
+    pub fn op(&mut self, op: &OeOp) -> bool {
+        let now = self.now();
+        let b = self.w.minter_config();
+        let min = self.w.factory_params()["min_mint_price"].clone();
+        let wl_active_b = self.wl_active_now(&b);
+        let out = self.w.run(op);
+        if let OeOp::SudoParams { min_price: Some(_), .. } = op {
+            if out.ok {
+                self.gov_min_changed = true;
+            }
+        }
+        if !out.is_minter_step {
+            return out.ok;
+        }
+        self.res.steps += 1;
+        if out.ok {
+            self.res.ok_steps += 1;
+        }
+        *self.res.hist.entry(format!("{}:{}:{}", self.vname, oe_op_kind(op), if out.ok { "ok" } else { "err" })).or_insert(0) += 1;
+        if let Some(s) = out.coq {
+            self.res.coq.push(s);
+        }
+        if let Some(e) = &out.err {
+            if e.starts_with("STATE-CHANGED-ON-FAILURE") {
+                self.violate("C07:failed-call-changed-state", format!("{:?}: {}", op, e));
+            }
+        }
+        let a = self.w.minter_config();
+        let admin = b["admin"].as_str().unwrap_or("").to_string();
+        let start_b: u64 = b["start_time"].as_str().unwrap().parse().unwrap();
+        let public_b = amount_of(&b["mint_price"]);
+        let min_b = amount_of(&min);
+        let min_denom_b = denom_of(&min);
+        let unchanged_except = |fields: &[&str]| -> Option<String> {
+            for k in ["admin", "mint_price", "start_time", "end_time", "whitelist", "per_address_limit", "num_tokens"] {
+                if !fields.contains(&k) && a[k] != b[k] {
+                    return Some(format!("Config.{} changed from {} to {}", k, b[k], a[k]));
+                }
+            }
+            None
+        };
+        if out.ok {
+            match op {
+                OeOp::UpdateMintPrice { who, price } => {
+                    if *who != admin {
+                        self.violate("C07:price-op-by-non-admin", format!("{:?} accepted from a non-admin", op));
+                    }
+                    if *price < min_b {
+                        self.violate("C07:update-price-below-minimum", format!("UpdateMintPrice {} accepted under a factory minimum of {} {}", price, min_b, min_denom_b));
+                    }
+                    if now >= start_b && *price >= public_b {
+                        self.violate(
+                            "C07:price-not-lowered-after-start",
+                            format!("UpdateMintPrice {} accepted at {} (start {}) while the public price was {}", price, now, start_b, public_b),
+                        );
+                    }
+                    let res_denom = denom_of(&a["mint_price"]);
+                    if amount_of(&a["mint_price"]) != *price || res_denom != denom_of(&b["mint_price"]) {
+                        self.violate("C07:update-price-effect", format!("UpdateMintPrice {} accepted but Config.mint_price is {}", price, a["mint_price"]));
+                    }
+                    if let Some(e) = unchanged_except(&["mint_price"]) {
+                        self.violate("C07:update-price-effect", format!("UpdateMintPrice {}: {}", price, e));
+                    }
+                    if res_denom != min_denom_b {
+                        let d8 = self.created_min_denom != NATIVE
+                            && self.gov_min_changed
+                            && min_denom_b == NATIVE
+                            && res_denom == self.created_min_denom
+                            && denom_of(&b["mint_price"]) == self.created_min_denom;
+                        if d8 {
+                            self.violate(KEY_D8, format!("UpdateMintPrice {} accepted: minter price {} {} under a factory minimum of {} {}", price, price, res_denom, min_b, min_denom_b));
+                        } else {
+                            self.violate("C07:price-denom-differs-from-minimum", format!("UpdateMintPrice {} accepted: price denom {} but the minimum in force is in {}", price, res_denom, min_denom_b));
+                        }
+                    }
+                }
+                OeOp::SetWhitelist { who, .. } => {
+                    if *who != admin {
+                        self.violate("C07:price-op-by-non-admin", format!("{:?} accepted from a non-admin", op));
+                    }
+                    if let Some(wc) = self.wl_config(&a) {
+                        let wp = amount_of(&wc["mint_price"]);
+                        let wd = denom_of(&wc["mint_price"]);
+                        if wp < min_b {
+                            self.violate("C07:whitelist-price-below-minimum", format!("SetWhitelist accepted: whitelist price {} under a factory minimum of {} {}", wp, min_b, min_denom_b));
+                        }
+                        if wd != min_denom_b {
+                            self.violate("C07:whitelist-denom-differs-from-minimum", format!("SetWhitelist accepted: whitelist denom {} but the minimum in force is in {}", wd, min_denom_b));
+                        }
+                        if wd != denom_of(&b["mint_price"]) {
+                            self.violate("C07:whitelist-denom-differs-from-mint-denom", format!("SetWhitelist accepted: whitelist denom {} but the minter sells in {}", wd, denom_of(&b["mint_price"])));
+                        }
+                    }
+                    if let Some(e) = unchanged_except(&["whitelist"]) {
+                        self.violate("C07:set-whitelist-effect", format!("SetWhitelist: {}", e));
+                    }
+                }
+                OeOp::Mint { who, funds } | OeOp::MintM { who, funds, .. } => {
+                    *self.mints_ok.entry(who.clone()).or_insert(0) += 1;
+                    if !wl_active_b {
+                        let paid: u128 = funds.iter().map(|f| f.1).sum();
+                        if paid > public_b {
+                            self.violate("C07:charged-above-public", format!("public Mint by {} accepted only with {} while the advertised public price is {}", who, paid, public_b));
+                        }
+                    }
+                    if let Some(e) = unchanged_except(&[]) {
+                        self.violate("C07:mint-changed-config", e);
+                    }
+                }
+                _ => {}
+            }
+        }
+        // once the stored start time has passed, the public price never goes up again
+        let start_a: u64 = a["start_time"].as_str().unwrap().parse().unwrap();
+        let public_a = amount_of(&a["mint_price"]);
+        if self.now() >= start_a {
+            if let Some(p) = self.started_price {
+                if public_a > p {
+                    self.violate("C07:public-price-raised-after-start", format!("public price went from {} to {} after the start by {:?}", p, public_a, op));
+                }
+            }
+            self.started_price = Some(public_a);
+        }
+        // MintPrice repeats Config and the attached whitelist; the current price is the
+        // whitelist's while it is active, the public price otherwise (no discount exists)
+        if let Some(mp) = self.mint_price_q() {
+            if mp["public_price"] != a["mint_price"] {
+                self.violate("C07:mint-price-query-differs-from-config", format!("after {:?}: MintPrice {} vs Config mint_price {}", op, mp, a["mint_price"]));
+            }
+            let wl_active = self.wl_active_now(&a);
+            if let Some(wc) = self.wl_config(&a) {
+                if mp["whitelist_price"] != wc["mint_price"] || (wl_active && mp["current_price"] != wc["mint_price"]) {
+                    self.violate("C07:mint-price-query-differs-from-whitelist", format!("after {:?}: MintPrice {} but the attached whitelist (active: {}) asks {}", op, mp, wl_active, wc["mint_price"]));
+                }
+            }
+            if !wl_active && mp["current_price"] != a["mint_price"] {
+                self.violate("C07:mint-price-query-current-wrong", format!("after {:?}: MintPrice current {} but the public price is {}", op, mp["current_price"], a["mint_price"]));
+            }
+        }
+        out.ok
+    }
+
+    fn probe(&mut self, who: &str) {
+        let mp = match self.mint_price_q() {
+            Some(v) => v,
+            None => return,
+        };
+        let cur = (amount_of(&mp["current_price"]), denom_of(&mp["current_price"]));
+        let mut others: Vec<(u128, String)> = vec![];
+        if cur.0 > 1 {
+            others.push((cur.0 - 1, cur.1.clone()));
+        }
+        others.push((cur.0 + 1, cur.1.clone()));
+        for k in ["public_price", "whitelist_price"] {
+            if mp[k].get("amount").is_some() {
+                others.push((amount_of(&mp[k]), denom_of(&mp[k])));
+            }
+        }
+        let mut seen = BTreeSet::new();
+        for o in others {
+            if o == cur || o.0 == 0 || !seen.insert(o.clone()) {
+                continue;
+            }
+            if self.op(&OeOp::Mint { who: who.into(), funds: vec![(o.1.clone(), o.0)] }) {
+                self.violate(
+                    "C07:mint-accepted-at-unquoted-amount",
+                    format!("MintPrice quoted {} {} but a Mint by {} attaching {} {} was accepted", cur.0, cur.1, who, o.0, o.1),
+                );
+                return;
+            }
+        }
+        if cur.0 > 0 {
+            self.op(&OeOp::Mint { who: who.into(), funds: vec![(cur.1.clone(), cur.0)] });
+        }
+    }
+
+    pub fn step(&mut self, st: &OStep) {
+        self.res.executed_oe.push(st.clone());
+        self.res.executed.push(Step::AtNs { ns: 0 }); // keeps the step index of `violate` aligned
+        match st {
+            OStep::Op(op) => {
+                self.op(op);
+            }
+            OStep::AtNs { ns } => {
+                self.w.run(&OeOp::At { secs: ns / S, nanos: (ns % S) as i64 });
+            }
+            OStep::Probe { who } => self.probe(who),
+        }
+    }
+}
+
+pub fn run_oe_sale(c: &OeSaleCase, gen: Option<(&mut Rng, usize, &[u128])>) -> CaseResult {
+    let mut w = match OeWorld::new(c.cfg.clone()) {
+        Ok(w) => w,
+        Err(_) => {
+            let mut r = CaseResult { coq: vec![], coq_oe: vec![], steps: 0, ok_steps: 0, violations: vec![], hist: BTreeMap::new(), executed: vec![], executed_oe: vec![] };
+            *r.hist.entry(format!("{}:create:err", OE_VARIANTS[c.cfg.variant].name)).or_insert(0) += 1;
+            return r;
+        }
+    };
+    let init = w.init_state_coq();
+    let init_bal = w.balances_coq();
+    let mut d = OeDriver::new(w);
+    for st in &c.steps {
+        d.step(st);
+        if d.res.violations.len() > 5 {
+            break;
+        }
+    }
+    if let Some((rng, len, lits)) = gen {
+        for _ in 0..len {
+            let st = next_ostep(rng, &d, c, lits);
+            d.step(&st);
+            if d.res.violations.len() > 5 {
+                break;
+            }
+        }
+    }
+    let steps = std::mem::take(&mut d.res.coq);
+    let coq = d.w.case_coq(&init, &init_bal, &steps);
+    d.res.coq_oe = vec![coq];
+    d.res
+}
+
+fn next_ostep(rng: &mut Rng, d: &OeDriver, c: &OeSaleCase, lits: &[u128]) -> OStep {
+    let t0 = d.w.t0;
+    let now = d.now();
+    let start = d.start();
+    let end = d.w.end_time();
+    let public = d.public_price();
+    let min = d.min_price();
+    let around = |rng: &mut Rng, x: u128| -> u128 {
+        match rng.below(3) {
+            0 => x.saturating_sub(1),
+            1 => x,
+            _ => x + 1,
+        }
+    };
+    match rng.below(100) {
+        0..=24 => {
+            let mut targets: Vec<u64> = vec![];
+            if start + 1 > now {
+                targets.extend([start - 1, start, start + 1]);
+            }
+            if let Some(e) = end {
+                if e > now + 1 && rng.chance(1, 6) {
+                    targets.extend([e - 1, e, e + 1]);
+                }
+            }
+            for sp in &c.cfg.spares {
+                for t in [t0 + sp.start_in * S, t0 + sp.end_in * S] {
+                    if t > now && rng.chance(1, 2) {
+                        targets.push(t + rng.below(3) - 1);
+                    }
+                }
+            }
+            let t = if targets.is_empty() || rng.chance(1, 3) { now + rng.range(1, 400) * S + rng.below(S) } else { *rng.pick(&targets) };
+            OStep::AtNs { ns: t - t0 }
+        }
+        25..=54 => {
+            let price = match rng.below(8) {
+                0 | 1 | 2 => around(rng, min),
+                3 | 4 | 5 => around(rng, public),
+                6 if !lits.is_empty() => {
+                    let l = *rng.pick(lits);
+                    around(rng, l)
+                }
+                _ => rng.range(min.saturating_sub(2) as u64, (public.max(min) + 40) as u64) as u128,
+            };
+            OStep::Op(OeOp::UpdateMintPrice { who: admin_or(rng), price })
+        }
+        55..=66 => {
+            let m = match rng.below(4) {
+                0 => around(rng, public),
+                1 => min + rng.range(1, 10) as u128,
+                2 => 0,
+                _ => min.saturating_sub(rng.range(1, 10) as u128),
+            };
+            OStep::Op(OeOp::SudoParams { min_price: Some(m), mint_fee_bps: None, airdrop_price: None, airdrop_fee_bps: None, offset: None, max_pal: None, max_token_limit: None, dev: None })
+        }
+        67..=76 => OStep::Op(OeOp::SetWhitelist { who: admin_or(rng), spare: rng.below(c.cfg.spares.len().max(1) as u64 + 1) as usize }),
+        77..=80 => {
+            let t = now - t0 + rng.range(1, 1500) * S;
+            OStep::Op(OeOp::UpdateStartTime { who: admin_or(rng), secs: t / S, nanos: (t % S) as i64 })
+        }
+        _ => {
+            let all = [BUYERS[0], BUYERS[1], BUYERS[2], STRANGER, PAYADDR, CREATOR];
+            let open: Vec<&str> = all.iter().copied().filter(|a| d.mints_ok.get(*a).copied().unwrap_or(0) < c.cfg.pal).collect();
+            let who = if open.is_empty() || rng.chance(1, 10) { *rng.pick(&all) } else { *rng.pick(&open) };
+            OStep::Probe { who: who.into() }
+        }
+    }
+}
+
+/// spare whitelists of the kind this variant can talk to: prices min-1 / min / min+1 in the
+/// factory's denom and one in the other denom; windows before the minter's start
+fn oe_spares(variant: usize, ibc: bool, min: u128, w0: u64) -> Vec<SpareWl> {
+    let kind = if OE_VARIANTS[variant].flex { 2 } else if OE_VARIANTS[variant].merkle { 4 } else { 0 };
+    vec![
+        SpareWl { kind, start_in: w0, end_in: w0 + 200, price: min.saturating_sub(1), ibc },
+        SpareWl { kind, start_in: w0, end_in: w0 + 200, price: min, ibc },
+        SpareWl { kind, start_in: w0 + 250, end_in: w0 + 400, price: min + 1, ibc },
+        SpareWl { kind, start_in: w0, end_in: w0 + 200, price: min + 1, ibc: !ibc },
+    ]
+}
+
+fn oe_cfg(variant: usize, ibc: bool, min: u128, price: u128, capped: bool) -> OeCfg {
+    let mut cfg = OeCfg::basic(variant);
+    cfg.fp.min_price = min;
+    cfg.fp.denom = denom_name(ibc).into();
+    cfg.fp.max_token_limit = 100;
+    cfg.num_tokens = if capped { Some(60) } else { None };
+    cfg.end_in_secs = Some(400_000);
+    cfg.pal = 3;
+    cfg.price = price;
+    cfg.start_in_secs = 1000;
+    cfg.spares = oe_spares(variant, ibc, min, 300);
+    cfg
+}
+
+fn oat(ns: u64) -> OStep {
+    OStep::AtNs { ns }
+}
+fn oump(price: u128) -> OStep {
+    OStep::Op(OeOp::UpdateMintPrice { who: CREATOR.into(), price })
+}
+fn osudo_min(m: u128) -> OStep {
+    OStep::Op(OeOp::SudoParams { min_price: Some(m), mint_fee_bps: None, airdrop_price: None, airdrop_fee_bps: None, offset: None, max_pal: None, max_token_limit: None, dev: None })
+}
+fn oprobe(who: &str) -> OStep {
+    OStep::Probe { who: who.into() }
+}
+fn oset_wl(spare: usize) -> OStep {
+    OStep::Op(OeOp::SetWhitelist { who: CREATOR.into(), spare })
+}
+
+fn oe_corpus() -> Vec<Case> {
+    let mut v = vec![];
+    let start = 1000 * S;
+    for variant in 0..3 {
+        // (A) every guard of UpdateMintPrice at its boundary
+        v.push(Case::OeSale(OeSaleCase {
+            cfg: oe_cfg(variant, false, 50, 100, true),
+            steps: vec![
+                oat(start - 1),
+                oump(49),                                                              // below the minimum: refused
+                oump(50),                                                              // accepted
+                oump(120),                                                             // raise before the start: accepted
+                OStep::Op(OeOp::UpdateMintPrice { who: STRANGER.into(), price: 110 }), // not the admin
+                oprobe(BUYERS[0]),                                                     // nothing is sold before the start
+                oat(start),
+                oump(121),                                                             // refused
+                oump(120),                                                             // same price at the start instant: refused
+                oump(119),                                                             // accepted
+                oprobe(BUYERS[0]),
+                osudo_min(60),
+                oump(59),                                                              // below the new minimum: refused
+                oump(60),                                                              // accepted
+                oprobe(BUYERS[1]),
+                osudo_min(40),
+                oat(start + 5 * S),
+                oump(61),                                                              // raise after the start: refused
+                oump(40),                                                              // accepted
+                oprobe(STRANGER),
+                oump(39),                                                              // refused
+                oat(400_000 * S),
+                oump(40),                                                              // at the end time: refused
+            ],
+        }));
+        // (B) D8 shape: IBC-denominated factory, minimum replaced by governance
+        v.push(Case::OeSale(OeSaleCase {
+            cfg: oe_cfg(variant, true, 50, 100, true),
+            steps: vec![oump(49), oump(110), osudo_min(70), oump(69), oump(90), oat(start), oprobe(BUYERS[0]), oump(80), oprobe(BUYERS[1])],
+        }));
+        // (B') same factory without governance change
+        v.push(Case::OeSale(OeSaleCase {
+            cfg: oe_cfg(variant, true, 50, 100, true),
+            steps: vec![oump(49), oump(110), oset_wl(3), oset_wl(1), oat(start), oump(90), oprobe(BUYERS[0])],
+        }));
+        // (C) attaching whitelists: price below / at the minimum, other denom, raised minimum; whitelist price while active
+        v.push(Case::OeSale(OeSaleCase {
+            cfg: oe_cfg(variant, false, 50, 100, true),
+            steps: vec![
+                oset_wl(0),                                                            // 49 < 50: refused
+                oset_wl(3),                                                            // other denom: refused
+                OStep::Op(OeOp::SetWhitelist { who: STRANGER.into(), spare: 1 }),
+                osudo_min(51),
+                oset_wl(1),                                                            // 50 < 51: refused
+                osudo_min(50),
+                oset_wl(1),                                                            // accepted
+                oprobe(BUYERS[0]),                                                     // not active yet, not started
+                oat(350 * S),
+                oprobe(BUYERS[0]),                                                     // member at the whitelist price 50
+                oprobe(STRANGER),                                                      // not a member
+                oset_wl(2),                                                            // refused: the attached whitelist is active
+                oump(45),                                                              // refused (< minimum); the quote stays the whitelist's
+                oump(70),
+                oprobe(BUYERS[1]),
+                oat(520 * S),
+                oset_wl(2),                                                            // accepted (old one ended, new one not started)
+                oat(560 * S),
+                oprobe(BUYERS[0]),                                                     // whitelist price 51
+                oat(start),
+                oset_wl(1),                                                            // after the start: refused
+                oprobe(BUYERS[2]),
+            ],
+        }));
+        // (D) no token cap: a zero price is refused even under a zero minimum
+        v.push(Case::OeSale(OeSaleCase {
+            cfg: oe_cfg(variant, false, 1, 10, false),
+            steps: vec![osudo_min(0), oump(0), oump(1), oat(start), oprobe(BUYERS[0]), oump(0)],
+        }));
+        // (E) with a cap a zero price is allowed under a zero minimum
+        v.push(Case::OeSale(OeSaleCase {
+            cfg: oe_cfg(variant, false, 1, 10, true),
+            steps: vec![osudo_min(0), oump(0), oat(start), oprobe(BUYERS[0]), oump(5)],
+        }));
+        // creation probes
+        for (ibc, wp) in [(false, 49u128), (false, 50), (true, 49), (true, 51)] {
+            v.push(Case::OeCreate(OeCreateCase {
+                variant,
+                ibc,
+                min_price: 50,
+                world_price: wp,
+                world_capped: true,
+                sudo_min: None,
+                probes: vec![(49, ibc, true), (50, ibc, true), (51, ibc, false), (50, !ibc, true), (1000, !ibc, false)],
+            }));
+        }
+        v.push(Case::OeCreate(OeCreateCase {
+            variant,
+            ibc: variant == 1,
+            min_price: 50,
+            world_price: 50,
+            world_capped: variant != 2,
+            sudo_min: Some(70),
+            probes: vec![(69, false, true), (70, false, true), (71, false, false), (69, true, true), (70, true, true), (50, variant == 1, true)],
+        }));
+        v.push(Case::OeCreate(OeCreateCase {
+            variant,
+            ibc: false,
+            min_price: 1,
+            world_price: 1,
+            world_capped: true,
+            sudo_min: Some(0),
+            probes: vec![(0, false, true), (0, false, false), (1, false, false)],
+        }));
+    }
+    v
+}
+
+fn gen_oe_sale(rng: &mut Rng, variant: usize) -> OeSaleCase {
+    let min = *rng.pick(&[1u128, 50, 50, 77]);
+    let price = min + *rng.pick(&[0u128, 1, 30, 50]);
+    OeSaleCase { cfg: oe_cfg(variant, rng.chance(1, 4), min, price, rng.chance(3, 4)), steps: vec![] }
+}
+
+pub fn run_oe_create(c: &OeCreateCase) -> CaseResult {
+    let mut r = CaseResult { coq: vec![], coq_oe: vec![], steps: 0, ok_steps: 0, violations: vec![], hist: BTreeMap::new(), executed: vec![], executed_oe: vec![] };
+    let vname = OE_VARIANTS[c.variant].name;
+    let mut cfg = oe_cfg(c.variant, c.ibc, c.min_price, c.world_price, c.world_capped);
+    cfg.spares = vec![];
+    let res = OeWorld::new(cfg);
+    r.steps += 1;
+    let ok = res.is_ok();
+    *r.hist.entry(format!("{}:create:{}", vname, if ok { "ok" } else { "err" })).or_insert(0) += 1;
+    let did0 = if c.ibc { 1 } else { 0 };
+    r.coq.push(format!("(COeCreate {} {} {} {} {} {})", c.min_price, did0, c.world_price, did0, coq_bool(c.world_capped), coq_bool(ok)));
+    let mut w = match res {
+        Ok(w) => w,
+        Err(_) => return r,
+    };
+    r.ok_steps += 1;
+    if c.world_price < c.min_price {
+        r.violations.push(("C07:creation-below-minimum".into(), format!("{}: minter created at {} under a factory minimum of {}", vname, c.world_price, c.min_price), 0));
+    }
+    if let Some(m) = c.sudo_min {
+        w.run(&OeOp::SudoParams { min_price: Some(m), mint_fee_bps: None, airdrop_price: None, airdrop_fee_bps: None, offset: None, max_pal: None, max_token_limit: None, dev: None });
+    }
+    let sg721 = w.factory_params()["allowed_sg721_code_ids"][0].as_u64().unwrap();
+    for (i, (price, ibc, capped)) in c.probes.iter().enumerate() {
+        let params = w.factory_params();
+        let min_now = amount_of(&params["min_mint_price"]);
+        let min_denom_now = denom_of(&params["min_mint_price"]);
+        let denom = denom_name(*ibc);
+        let now = chain::now(&w.app);
+        let msg = json!({"create_minter": {
+            "init_msg": {
+                "nft_data": {"nft_data_type": "off_chain_metadata", "extension": null,
+                             "token_uri": "ipfs://bafybeigi3bwpvyvsmnbj46ra4hyffcxdeaj6ntfk5jpic5mx27x6ih2qvq/images/1.png"},
+                "payment_address": null,
+                "start_time": (now + 1000 * S).to_string(),
+                "end_time": (now + 5000 * S).to_string(),
+                "num_tokens": if *capped { Some(5) } else { None },
+                "mint_price": {"amount": price.to_string(), "denom": denom},
+                "per_address_limit": 1,
+                "whitelist": null,
+            },
+            "collection_params": {"code_id": sg721, "name": format!("Probe{}", i), "symbol": "PRB",
+                "info": {"creator": CREATOR, "description": "d", "image": "https://example.com/image.png",
+                         "external_link": "https://example.com/external.html", "explicit_content": false,
+                         "start_trading_time": null,
+                         "royalty_info": {"payment_address": CREATOR, "share": "0.1"}}}}});
+        let f = w.factory.clone();
+        let fee = w.cfg.fp.creation_fee;
+        let res = chain::exec(&mut w.app, CREATOR, &f, &msg, &[coin(fee, NATIVE)]);
+        let ok = res.is_ok();
+        r.steps += 1;
+        if ok {
+            r.ok_steps += 1;
+        }
+        *r.hist.entry(format!("{}:create:{}", vname, if ok { "ok" } else { "err" })).or_insert(0) += 1;
+        let did = w.denoms.id(denom);
+        let mdid = w.denoms.id(&min_denom_now);
+        r.coq.push(format!("(COeCreate {} {} {} {} {} {})", min_now, mdid, price, did, coq_bool(*capped), coq_bool(ok)));
+        if ok && *price < min_now {
+            r.violations.push(("C07:creation-below-minimum".into(), format!("{}: create_minter at {} {} accepted under a factory minimum of {} {}", vname, price, denom, min_now, min_denom_now), i + 1));
+        }
+        if ok && denom != min_denom_now {
+            r.violations.push(("C07:creation-wrong-denom".into(), format!("{}: create_minter at {} {} accepted while the factory minimum is in {}", vname, price, denom, min_denom_now), i + 1));
+        }
+    }
+    r
+}
+
+fn shrink_oe(c: &OeSaleCase, key: &str, what: &str, upto: usize) -> OeSaleCase {
+    let mut cur = c.clone();
+    cur.steps.truncate(upto + 1);
+    let kind = |w: &str| -> String { w.chars().take_while(|ch| !ch.is_ascii_digit()).collect() };
+    let want = kind(what);
+    let reproduces = |s: &OeSaleCase| run_oe_sale(s, None).violations.iter().any(|v| v.0 == key && kind(&v.1) == want);
+    if !reproduces(&cur) {
+        return cur;
+    }
+    let mut budget = 40;
+    let mut chunk = (cur.steps.len() / 2).max(1);
+    while budget > 0 {
+        let mut i = 0;
+        while i + chunk <= cur.steps.len() && budget > 0 {
+            let mut t = cur.clone();
+            t.steps.drain(i..i + chunk);
+            budget -= 1;
+            if !t.steps.is_empty() && reproduces(&t) {
+                cur = t;
+            } else {
+                i += chunk;
+            }
+        }
+        if chunk == 1 {
+            break;
+        }
+        chunk /= 2;
+    }
+    cur
+}
+
 pub fn run(a: &Args) {
     let out = OutDir::new(&a.out);
     let mut rep = Report { property: "C07".into(), tier: a.tier.clone(), seed: a.seed, ..Default::default() };
     let mut rng = Rng::new(a.seed);
     let mut files: Vec<String> = VARIANTS.iter().map(|v| format!("contracts/minters/{}/src/contract.rs", v.name)).collect();
     files.push("contracts/factories/vending-factory/src/contract.rs".into());
+    files.extend(OE_VARIANTS.iter().map(|v| format!("contracts/minters/{}/src/contract.rs", v.name)));
+    files.push("contracts/factories/open-edition-factory/src/contract.rs".into());
     let lits: Vec<u128> = harvest_literals(&files.iter().map(|s| s.as_str()).collect::<Vec<_>>()).into_iter().filter(|x| *x >= 1 && *x <= 1000).collect();
     // (case, number of generated steps to append online)
     let cases: Vec<(Case, usize)> = if let Some(p) = &a.replay {
@@ -1018,9 +1669,19 @@ pub fn run(a: &Args) {
                 v.push((Case::Sale(gen_sale(&mut rng, variant)), len));
             }
         }
+        // part 2: open edition
+        v.extend(oe_corpus().into_iter().map(|c| (c, 0)));
+        let per_oe = if a.thorough() { 80 } else { 10 };
+        for variant in 0..3 {
+            for _ in 0..per_oe {
+                let len = rng.range(30, 50) as usize;
+                v.push((Case::OeSale(gen_oe_sale(&mut rng, variant)), len));
+            }
+        }
         v
     };
     let mut coq_cases = vec![];
+    let mut oe_cases: Vec<String> = vec![];
     let mut nviol = 0;
     let mut seen_keys: BTreeMap<String, u32> = BTreeMap::new();
     for (i, (c, len)) in cases.iter().enumerate() {
@@ -1038,6 +1699,12 @@ pub fn run(a: &Args) {
                 Case::Sale(s2)
             }
             Case::Create(k) => Case::Create(k.clone()),
+            Case::OeSale(s) => {
+                let mut s2 = s.clone();
+                s2.steps = r.executed_oe.clone();
+                Case::OeSale(s2)
+            }
+            Case::OeCreate(k) => Case::OeCreate(k.clone()),
         };
         let mut keys_here = BTreeSet::new();
         // one replay per key and case: the first occurrence, except for D4 where the last one
@@ -1053,7 +1720,8 @@ pub fn run(a: &Args) {
             }
         }
         for (key, what, idx) in chosen.into_iter() {
-            let n = seen_keys.entry(key.clone()).or_insert(0);
+            let family = if matches!(c, Case::OeSale(_) | Case::OeCreate(_)) { "oe" } else { "vending" };
+            let n = seen_keys.entry(format!("{}/{}", family, key)).or_insert(0);
             *n += 1;
             if *n > 3 {
                 continue; // three replays per shape are enough
@@ -1061,6 +1729,7 @@ pub fn run(a: &Args) {
             nviol += 1;
             let small = match &concrete {
                 Case::Sale(s) if a.replay.is_none() => Case::Sale(shrink(s, key, what, *idx)),
+                Case::OeSale(s) if a.replay.is_none() => Case::OeSale(shrink_oe(s, key, what, *idx)),
                 other => other.clone(),
             };
             let body = format!(
@@ -1072,18 +1741,27 @@ pub fn run(a: &Args) {
             let path = out.write_replay(&format!("C07-{}.json", nviol), &body);
             rep.violations.push(Violation { key: key.clone(), what: what.clone(), replay: path });
         }
-        if rep.samples.len() < 3 && (i % 11 == 0 || a.replay.is_some()) {
+        if (rep.samples.len() < 3 && (i % 11 == 0 || a.replay.is_some())) || (rep.samples.len() < 5 && matches!(c, Case::OeSale(_)) && i % 7 == 0) {
             rep.samples.push(match &concrete {
                 Case::Sale(s) => json!({"variant": VARIANTS[s.variant].name, "ibc_factory": s.ibc, "min_price": s.min_price.to_string(),
                     "price": s.price.to_string(), "first_steps": s.steps.iter().take(8).map(|o| format!("{:?}", o)).collect::<Vec<_>>(),
                     "minter_steps": r.steps, "ok_steps": r.ok_steps}),
                 Case::Create(k) => json!({"variant": VARIANTS[k.variant].name, "create": format!("{:?}", k)}),
+                Case::OeSale(s) => json!({"variant": OE_VARIANTS[s.cfg.variant].name, "ibc_factory": s.cfg.fp.denom != NATIVE,
+                    "min_price": s.cfg.fp.min_price.to_string(), "price": s.cfg.price.to_string(),
+                    "first_steps": s.steps.iter().take(8).map(|o| format!("{:?}", o)).collect::<Vec<_>>(),
+                    "minter_steps": r.steps, "ok_steps": r.ok_steps}),
+                Case::OeCreate(k) => json!({"variant": OE_VARIANTS[k.variant].name, "create": format!("{:?}", k)}),
             });
         }
         coq_cases.extend(r.coq);
+        oe_cases.extend(r.coq_oe);
     }
-    rep.rule = "sale histories (UpdateMintPrice/UpdateDiscountPrice/RemoveDiscountPrice/SetWhitelist/sudo min_mint_price/UpdateStartTime/probing mints at quoted-1, quoted+1, other advertised prices and the quote) on each of the six vending minters, native and IBC-denominated factories, at start±1ns, +12h(−1,0,+1 ns), +1h(−1,0,+1 ns), prices at min±1 / old±1 / discount±1; plus create_minter probes at min−1/min/min+1 and the other denom; corpus first. evaluations = minter steps and creation messages executed on the real contracts; distinct_nontrivial = those that were accepted (state-changing)".into();
+    rep.rule = "sale histories (UpdateMintPrice/UpdateDiscountPrice/RemoveDiscountPrice/SetWhitelist/sudo min_mint_price/UpdateStartTime/probing mints at quoted-1, quoted+1, other advertised prices and the quote) on each of the six vending minters, native and IBC-denominated factories, at start±1ns, +12h(−1,0,+1 ns), +1h(−1,0,+1 ns), prices at min±1 / old±1 / discount±1; plus create_minter probes at min−1/min/min+1 and the other denom; corpus first. evaluations = minter steps and creation messages executed on the real contracts; distinct_nontrivial = those that were accepted (state-changing) || part 2: the same on each of the three open-edition minters created through the open-edition factory (UpdateMintPrice/SetWhitelist of pre-created spare whitelists at price min-1/min/min+1 and the other denom/sudo min_mint_price/UpdateStartTime/probing mints; no discount operations exist there), with and without a token cap, native and IBC-denominated factories, at start±1ns and the end time; open-edition create_minter probes at min-1/min/min+1, the other denom and zero price without a cap".into();
     out.write_cases("C07", "From LP Require Import Num Pay Sg1 Bank MinterVending CreatePrice SaleCorr C07Corr.", "c07_case", "c07_check", &coq_cases, 6, &mut rep);
+    if !oe_cases.is_empty() {
+        out.write_cases("C07oe", "From LP Require Import Num Pay Sg1 Bank MinterVending MinterOpen SaleOeCorr.", "oecase", "sale_oe_check", &oe_cases, 6, &mut rep);
+    }
     out.finish(&rep);
     println!("C07 harness: {} cases, {} steps, {} monitor violations", cases.len(), rep.evaluations, nviol);
 }
